@@ -50,6 +50,12 @@ def make_case(zone, tr, rng, n=None):
         local = t + before
         local -= local % 3600                       # series start on whole local hours
         base = local - 3600 * rng.randint(1, n - 1)
+        if after - before > 3600 and rng.random() < 0.7:
+            # a clock moved forward by more than an hour (a skipped calendar day: Pacific/Apia 2011, Kwajalein 1993): the
+            # series covers both sides of the gap — many local hours that do not exist, all merged into the first that does
+            lead = rng.randint(1, 4)
+            n = lead + (after - before) // 3600 + rng.randint(2, 6)
+            base = local - 3600 * lead
     vals = [rng.choice([0.0, round(rng.uniform(0.5, 90), 2)]) for _ in range(n)]
     return {"zone": zone, "start": base, "vs": vals}
 
